@@ -817,6 +817,9 @@ func RunC19(t *testing.T, tape *Tape) *Outcome {
 	}
 	// now and then the client pauses the running program (Interrupt) some time
 	// after a resume request, or ends the session with Terminate at its k-th stop
+	// the client looks at the whole stack at every stop, as an adapter does to fill
+	// its call-stack and variables views: names, positions, scopes, variables
+	inspect := tape.Choose(3) == 2
 	interruptEvery := 0
 	if tape.Choose(4) == 3 {
 		interruptEvery = 1 + tape.Choose(3)
@@ -888,6 +891,8 @@ func RunC19(t *testing.T, tape *Tape) *Outcome {
 	var wait2Err error
 	waited2, started2, overlap2 := false, false, false
 	stopsSeen, interrupts, terminated := 0, 0, false
+	var inspectPanic any
+	inspected := 0
 	out2Start, ticks2Start := 0, 0
 
 	res := Simulate(t, tape, cfg, func(r *Run) {
@@ -918,6 +923,37 @@ func RunC19(t *testing.T, tape *Tape) *Outcome {
 					ev.g = e.GoRoutine()
 					if fr := e.Frames(0, 1); len(fr) > 0 {
 						ev.line = fr[0].Position().Line
+					}
+					if inspect && e.Reason() != interp.DebugEnterGoRoutine && e.Reason() != interp.DebugExitGoRoutine {
+						func() {
+							defer func() {
+								if p := recover(); p != nil {
+									if _, ok := p.(abortSentinel); ok {
+										panic(p)
+									}
+									mu.Lock()
+									if inspectPanic == nil {
+										inspectPanic = p
+									}
+									mu.Unlock()
+								}
+							}()
+							n := 0
+							for _, fr := range e.Frames(0, e.FrameDepth()) {
+								n += len(fr.Name()) + fr.Position().Line
+								_ = fr.Program()
+								for _, sc := range fr.Scopes() {
+									_ = sc.IsClosure()
+									for _, v := range sc.Variables() {
+										n += len(v.Name)
+										if v.Value.IsValid() {
+											n += int(v.Value.Kind())
+										}
+									}
+								}
+							}
+							inspected += n*0 + 1
+						}()
 					}
 				}
 				mu.Lock()
@@ -1234,6 +1270,15 @@ func RunC19(t *testing.T, tape *Tape) *Outcome {
 		return o
 	}
 	o.FaultFired["interrupt-requests"] += interrupts
+	o.FaultFired["stops-with-full-stack-inspection"] += inspected
+	if inspectPanic != nil {
+		msg := fmt.Sprint(inspectPanic)
+		if len(msg) > 200 {
+			msg = msg[:200]
+		}
+		o.addV("C19", "no-crash", "inspection-panic prog="+kind, "%s: reading frames, scopes and variables at a stop panicked: %s", o.Desc, msg)
+		return o
+	}
 	if terminated {
 		// the session was ended by the client: what the program did up to then is a
 		// prefix of what plain execution does, and the session ends with exactly
